@@ -743,17 +743,21 @@ type c16Unit struct {
 }
 
 func c16Plan(r *vx.Run) []c16Layer {
-	all := c16Placements
+	mem, disk, all := []string{"head", "ooo"}, []string{"block", "split"}, c16Placements
+	fullOpts := c16Opts{Limits: []int{0, 1, 2}, Unsorted: true, Chunked: true}
 	if r.Quick() {
 		return []c16Layer{
-			{Name: "singles", SetMax: 3, Full: true, ListLens: []int{0, 1}, Placements: all, AllRanges: true, Opts: c16Opts{Limits: []int{0, 1, 2}, Unsorted: true, Chunked: true}},
+			{Name: "singles/head", SetMax: 3, Full: true, ListLens: []int{0, 1}, Placements: mem, AllRanges: true, Opts: fullOpts},
+			{Name: "singles/block", SetMax: 2, Full: true, ListLens: []int{0, 1}, Placements: disk, AllRanges: true, Opts: fullOpts},
 			{Name: "pairs", SetMax: 1, Full: true, ListLens: []int{2}, Placements: all, AllRanges: false, Opts: c16Opts{Limits: []int{0, 1}}},
 		}
 	}
 	return []c16Layer{
-		{Name: "singles", SetMax: 4, Full: true, ListLens: []int{0, 1}, Placements: all, AllRanges: true, Opts: c16Opts{Limits: []int{0, 1, 2}, Unsorted: true, Chunked: true}},
-		{Name: "pairs", SetMax: 2, Full: true, ListLens: []int{2}, Placements: all, AllRanges: true, Opts: c16Opts{Limits: []int{0, 1, 2}}},
-		{Name: "triples", SetMax: 1, Full: true, ListLens: []int{3}, Placements: all, AllRanges: false, Opts: c16Opts{Limits: []int{0, 1}}},
+		{Name: "singles/head", SetMax: 4, Full: true, ListLens: []int{0, 1}, Placements: mem, AllRanges: true, Opts: fullOpts},
+		{Name: "singles/block", SetMax: 3, Full: true, ListLens: []int{0, 1}, Placements: disk, AllRanges: true, Opts: fullOpts},
+		{Name: "pairs", SetMax: 2, Full: true, ListLens: []int{2}, Placements: all, AllRanges: false, Opts: c16Opts{Limits: []int{0, 1, 2}}},
+		{Name: "triples", SetMax: 1, Full: true, ListLens: []int{3}, Placements: []string{"head", "block"}, AllRanges: false, Opts: c16Opts{Limits: []int{0}}},
+		{Name: "triples/full", SetMax: -1, Full: true, ListLens: []int{3}, Placements: []string{"split", "ooo"}, AllRanges: false, Opts: c16Opts{Limits: []int{0}}},
 	}
 }
 
@@ -784,13 +788,17 @@ func (c *c16Ctx) runUnit(l c16Layer, subset []int, placement string, only *c16Ca
 				c.viol("querier-error", err.Error(), s, placement, rg, nil)
 			}
 		}
+		opts := l.Opts
+		if rg.Name != "all" && rg.Name != "ooo-only" { // secondary ranges: unlimited queries only
+			opts = c16Opts{Limits: []int{0}, Chunked: l.Opts.Chunked}
+		}
 		if only != nil {
-			c.runList(s, placement, rg, q, cq, only.Matchers, l.Opts)
+			c.runList(s, placement, rg, q, cq, only.Matchers, opts)
 		} else {
 			for _, n := range l.ListLens {
 				k := 0
 				c16ForLists(len(c.ms), n, func(ml []int) bool {
-					p, stack := vx.Guard(func() { c.runList(s, placement, rg, q, cq, ml, l.Opts) })
+					p, stack := vx.Guard(func() { c.runList(s, placement, rg, q, cq, ml, opts) })
 					if p != nil {
 						c.viol("query-panic", fmt.Sprintf("panic %v\n%s", p, stack), s, placement, rg, ml)
 					}
@@ -875,10 +883,12 @@ func TestVerifC16(t *testing.T) {
 	var planned int64
 	for li, l := range layers {
 		var sets [][]int
-		vx.Subsets(len(u.ref), l.SetMax, func(idx []int) bool {
-			sets = append(sets, append([]int{}, idx...))
-			return true
-		})
+		if l.SetMax >= 0 {
+			vx.Subsets(len(u.ref), l.SetMax, func(idx []int) bool {
+				sets = append(sets, append([]int{}, idx...))
+				return true
+			})
+		}
 		if l.Full {
 			sets = append(sets, full)
 		}
